@@ -78,6 +78,7 @@ class Cur:
     text = None
     hook = False
     hit = None
+    obj = 1
 
 
 class Boom(Exception):
@@ -85,6 +86,7 @@ class Boom(Exception):
 
 
 REG_CODES = (400, 404, 405, 413, 500, 418, 599)
+BAD_OBJS = [123, 1.5, (1,), {'a': 1}, Boom('x'), object]      # truthy, not text: `_cast` answers 500
 EXC = [ValueError, KeyError, RuntimeError, ZeroDivisionError, Boom, TypeError]
 
 
@@ -153,6 +155,20 @@ class Apps:
         def ab(p):
             cur.hit = 'abort'
             om.abort(cur.code, cur.text)
+
+        @app.route('/gen/<p:path>')
+        def gen(p):
+            cur.hit = 'gen'
+
+            def g():
+                raise cur.cls(cur.msg)
+                yield 'never'
+            return g()
+
+        @app.route('/badtype/<p:path>')
+        def badtype(p):
+            cur.hit = 'badtype'
+            return [cur.obj]
 
         @app.on('before_request')
         def hook():
@@ -287,7 +303,7 @@ class C20(Check):
                'ombott/request_pkg/props_mixin.py']
     rule = ('paths, query strings, Host/X-Forwarded-Host/X-Forwarded-Proto values built from markup, quotes, braces, '
             'str.format syntax, control and non-ASCII characters x error kinds (404, 405, 400 undecodable path, '
-            '400/413 bad body via errors_map, 500 crashing handler or hook, abort, last-resort page via a failing '
+            '400/413 bad body via errors_map, 500 crashing handler, hook or iterator, unsupported item type, abort, last-resort page via a failing '
             'error handler or a URL urljoin rejects) x HTML/JSON (Accept) x debug off/on x GET/HEAD through real '
             'Ombott() WSGI calls; unit lines for escape, repr, urlquote, json.dumps, json parsing, str.format, '
             'render, Request.url; non-trivial = input contains one of < > " \' & { }')
@@ -500,7 +516,8 @@ class C20(Check):
         c['script'] = rng.choice([None] * 6 + ['', '/app', '/a/b/'])
         tail = gen_text(rng, 6)
         kind = rng.choice(['nf', 'nf', 'nf', 'na', 'crash', 'crash', 'hook', 'badpath', 'badpath', 'reqerr', 'json',
-                           'big', 'abort', 'ok', 'ipv6'])
+                           'big', 'abort', 'ok', 'ipv6', 'gen', 'badtype'])
+        c['obj'] = rng.randrange(len(BAD_OBJS))
         c['kind'] = kind
         c['method'] = 'GET'
         c['cls'] = rng.choice(EXC).__name__
@@ -511,8 +528,8 @@ class C20(Check):
         c['text'] = rng.choice([None, '', gen_text(rng, 5)])
         prefix = {'nf': '/zz', 'na': '/post/', 'crash': '/crash/', 'hook': '/' + rng.choice(['zz', 'ok/', 'post/']),
                   'badpath': '/' + rng.choice(['zz', 'ok/', 'crash/']), 'reqerr': '/reqerr/', 'json': '/json/',
-                  'big': '/json/', 'abort': '/abort/', 'ok': '/ok/', 'ipv6': '/'}[kind]
-        if kind in ('na', 'crash', 'reqerr', 'json', 'big', 'abort', 'ok'):
+                  'big': '/json/', 'abort': '/abort/', 'ok': '/ok/', 'ipv6': '/', 'gen': '/gen/', 'badtype': '/badtype/'}[kind]
+        if kind in ('na', 'crash', 'reqerr', 'json', 'big', 'abort', 'ok', 'gen', 'badtype'):
             tail = 'x' + tail
         if kind == 'ipv6':
             tail = rng.choice(['http://[', 'x://[', 'https://a]b/', '//[', 'http://[::1', 'ftp://]']) + tail
@@ -553,6 +570,7 @@ class C20(Check):
             cur.text = c['text'] or 'fine'
         cur.hook = kind == 'hook'
         cur.hit = None
+        cur.obj = BAD_OBJS[c.get('obj', 0)]
         # parameter of the model: Request.fullpath as the live code computes it
         try:
             path = raw.decode('utf8')
@@ -576,6 +594,10 @@ class C20(Check):
             cls = 'BodySizeError' if kind == 'big' else 'BodyParsingError'
             msg = '' if kind == 'big' else 'Invalid JSON'
             oc = f'reqerr:{cls}:{hs(msg)}:{hs(c["tb"])}'
+        elif hit == 'gen':
+            oc = f'iter:{hs(cur.cls.__name__)}:{hs(c["msg"])}:{hs(c["tb"])}'
+        elif hit == 'badtype':
+            oc = f'badtype:{hs(str(type(cur.obj)))}'
         elif hit == 'abort':
             oc = f'abort:{c["code"]}:{o(c["text"])}'
         elif hit == 'ok':
@@ -609,7 +631,7 @@ class C20(Check):
                 parts.append(a + m + b)
             extra = rng.choice(['', '{0}', '{url}', '{e.__class__}', '}{', '\xe9', '\\', '%', '{exception}'])
             return 'w' + extra.join(parts) + extra + 'w'
-        c = dict(kind=rng.choice(['nf', 'nf', 'na', 'crash', 'hook', 'badpath', 'json', 'big', 'reqerr', 'critical', 'ipv6']),
+        c = dict(kind=rng.choice(['nf', 'nf', 'na', 'crash', 'hook', 'badpath', 'json', 'big', 'reqerr', 'critical', 'ipv6', 'gen']),
                  json=rng.random() < .3, head=False, marks=marks)
         c['path'] = dress(marks['P'])
         c['qs'] = rng.choice([dress(marks['Q']), dress(marks['Q']), latin1_view(dress(marks['Q']))])
@@ -627,7 +649,7 @@ class C20(Check):
         app = apps.apps[(False, kind == 'critical')]
         prefix = {'nf': '/zz', 'na': '/post/x', 'crash': '/crash/x', 'hook': '/zz', 'badpath': '/zz\xff',
                   'json': '/json/x', 'big': '/json/x', 'reqerr': '/reqerr/x', 'critical': '/zz',
-                  'ipv6': '/http://['}[kind]
+                  'ipv6': '/http://[', 'gen': '/gen/x'}[kind]
         env = base_env()
         env['PATH_INFO'] = prefix + latin1_view(c['path'])     # '\xff' of badpath is not UTF-8
         env['QUERY_STRING'] = c['qs']
@@ -717,12 +739,12 @@ class C20(Check):
                 if s.get('case') == 'serve' and not s.get('debug'):
                     # re-dress the disagreeing request with markers
                     c = self._taint_case(rng, 0)
-                    c['kind'] = {'ok': 'nf', 'abort': 'nf'}.get(s['kind'], s['kind'])
+                    c['kind'] = {'ok': 'nf', 'abort': 'nf', 'badtype': 'nf'}.get(s['kind'], s['kind'])
                     if s.get('failing'):
                         c['kind'] = 'critical'
                     c['json'] = (s.get('accept') or '').startswith('application/json')
                     cases.append(c)
-            kinds = ['nf', 'na', 'crash', 'hook', 'badpath', 'json', 'big', 'reqerr', 'critical', 'ipv6']
+            kinds = ['nf', 'na', 'crash', 'hook', 'badpath', 'json', 'big', 'reqerr', 'critical', 'ipv6', 'gen']
             for i, k in enumerate(kinds):            # every kind x HTML/JSON at least once
                 for js in (False, True):
                     c = self._taint_case(rng, i)
